@@ -120,6 +120,9 @@ func VerifC19Catalog(h *verifh.H) {
 	}
 	gone := map[string]bool{}
 	pool := []string{"ns0:e1", "ns0:e2", "ns0:e3"}
+	if h.Param("badTxn", 0) == 1 {
+		pool = pool[:2]
+	}
 	mk := func(id string, tag string) *Entity {
 		e := NewEntity(id, 0)
 		e.Properties["ns0:v"] = tag
@@ -141,6 +144,9 @@ func VerifC19Catalog(h *verifh.H) {
 		}
 		if h.Param("lifecycleOnly", 0) == 1 {
 			h.Assume(op == 3 || op == 4 || op == 5 || op == 6 || op == 8) // delete, rename, re-create, restart, catalogue batch
+		}
+		if h.Param("badTxn", 0) == 1 {
+			h.Assume(op == 0 || op == 2) // batch of one, transaction (accepted or refused)
 		}
 		when := "op" + itoa(k) + "=" + itoa(op)
 		switch op {
@@ -166,6 +172,16 @@ func VerifC19Catalog(h *verifh.H) {
 			id1 := pool[h.Choice("id", len(pool))]
 			id2 := pool[h.Choice("id", len(pool))]
 			txn := &Transaction{DatasetEntities: map[string][]*Entity{cur: {mk(id1, "t"+itoa(k))}, "b": {mk(id2, "t"+itoa(k))}}}
+			if bad := h.Choice("badTxn", 1+2*h.Param("badTxn", 0)); bad != 0 {
+				// one part of the transaction holds an entity the hub rejects (a nil reference), after a
+				// good one: the transaction is refused as a whole and the catalogue counts nothing of it
+				be := mk(pool[h.Choice("id", len(pool))], "bad")
+				be.References["ns0:p1"] = nil
+				part := []string{cur, "b"}[bad-1]
+				txn.DatasetEntities[part] = append(txn.DatasetEntities[part], be)
+				h.Assert(hub.Store.ExecuteTransaction(txn) != nil, "a transaction with a rejected entity is refused")
+				break
+			}
 			h.Assert(hub.Store.ExecuteTransaction(txn) == nil, "transaction accepted")
 			names[cur][id1] = true
 			names["b"][id2] = true
